@@ -23,7 +23,15 @@ typing of bytecode (`Spec/Balanced.lean`): a function is *balanced* when an anno
                           DESIGN §7 "Today" is refused by the checker and really misbehaves
                           in the machine (`Model/LegacyBalance.lean`);
 * the generator theorems (`gen_balanced…`) and the VM-level statements (`RunAtRest`,
-  `EvalEmptyNil`, `OneAtATime`) follow further down.
+  `EvalEmptyNil`, `OneAtATime`) follow further down;
+* `calling_contract`     — the VM model refines the stack-effect machine across nested runs;
+* `run_at_rest_of_invariant`, `run_at_rest_reachable`
+                        — on the VM model: from every state that satisfies the run-time invariant
+                          (in particular: every state reachable from the fresh interpreter by
+                          texts of the generator's grammar that returned values), a text of the
+                          grammar that returns a value leaves the interpreter at rest. `RunAtRest`
+                          over EVERY state at rest is not provable without that invariant and
+                          stays a `def`; `OneAtATime` stays a `def` (`one_at_a_time_partial`).
 -/
 import ZygoVerif.Spec.Balanced
 import ZygoVerif.Spec.AtRest
